@@ -266,11 +266,16 @@ impl ProxiedStream {
 /// `RateLimiter<IpAddr>`: the keys it was asked about, in order; its verdict is an uninterpreted function of that history
 /// (the limiter itself is unit U8)
 pub uninterp spec fn admit_oracle(history: Seq<IpAddr>, key: IpAddr) -> bool;
-pub struct RateLimiter { pub calls: Ghost<Seq<IpAddr>> }
+pub struct RateLimiter { pub calls: Ghost<Seq<IpAddr>>, pub dur: Ghost<Duration>, pub lim: Ghost<usize> }
 impl RateLimiter {
     #[verifier::external_body]
+    pub fn new(duration: Duration, limit: usize) -> (r: RateLimiter)
+        ensures r.calls@.len() == 0, r.dur@ == duration, r.lim@ == limit
+    { unimplemented!() }
+    #[verifier::external_body]
     pub fn enqueue(&mut self, key: IpAddr) -> (r: bool)
-        ensures final(self).calls@ == old(self).calls@.push(key), r == admit_oracle(old(self).calls@, key)
+        ensures final(self).calls@ == old(self).calls@.push(key), r == admit_oracle(old(self).calls@, key),
+            final(self).dur == old(self).dur, final(self).lim == old(self).lim
     { unimplemented!() }
 }
 pub struct TaskTracker {}
@@ -279,6 +284,9 @@ pub struct Elapsed {}
 /// tokio::time::timeout: the inner future either completes or the deadline passes (trusted); C14 makes the
 /// *duration argument* an obligation at the call site
 pub uninterp spec fn cfg_timeout() -> Duration;
+/// C15 (U11): whether the operator enabled the limiter, and the PROXY settings
+pub uninterp spec fn cfg_limiter_enabled() -> bool;
+pub uninterp spec fn cfg_proxy() -> Option<ParseConfig>;
 #[verifier::external_body]
 pub fn timeout<T>(duration: Duration, value: T) -> (r: Result<T, Elapsed>)
     requires
